@@ -143,6 +143,8 @@ type linHistory struct {
 	ops      [2][]porcupine.Operation
 	requeues int
 	nils     int
+	// >= 2 put-backs outstanding at the same time; ... then taken by DequeueAll / Dequeue
+	twoOut, twoThenAll, twoThenDeq bool
 }
 
 // rawOp is what a client records per operation: no allocation and no conversion happens between
@@ -256,7 +258,18 @@ func runOneHistory(seed int64, maxOps int, parties *[2]party, yieldPm int) linHi
 		rr := xrng{uint64(seed)*11 + 3}
 		ops := make([]rawOp, 0, n1)
 		defer func() { raw[1] = ops }()
-		var held []byte
+		// chunks taken and not put back, oldest first (at most 3 are kept; older ones count as consumed)
+		var held [][]byte
+		take := func(b []byte) {
+			if b == nil {
+				return
+			}
+			if len(held) == 3 {
+				copy(held, held[1:])
+				held = held[:2]
+			}
+			held = append(held, b)
+		}
 		defer gone.Add(1)
 		barrier(p, 1)
 		for i := 0; i < n1; i++ {
@@ -270,24 +283,30 @@ func runOneHistory(seed int64, maxOps int, parties *[2]party, yieldPm int) linHi
 				d := q.GetDepth()
 				ret := clock.Add(1)
 				ops = append(ops, rawOp{op: opDepth, depth: d, call: c, ret: ret})
-			case held != nil && x < cDepth+wReq:
+			case len(held) > 0 && x < cDepth+wReq:
+				// mostly the most recently taken chunk (stream order restored), sometimes the oldest held
+				k := len(held) - 1
+				if len(held) > 1 && rr.pm() < 250 {
+					k = 0
+				}
+				b := held[k]
+				held = append(held[:k:k], held[k+1:]...)
 				c := clock.Add(1)
-				q.Requeue(held)
+				q.Requeue(b)
 				ret := clock.Add(1)
-				ops = append(ops, rawOp{op: opReq, arg: held, call: c, ret: ret})
-				held = nil
+				ops = append(ops, rawOp{op: opReq, arg: b, call: c, ret: ret})
 			case x < cDepth+wReq+wAll:
 				c := clock.Add(1)
 				b := q.DequeueAll()
 				ret := clock.Add(1)
 				ops = append(ops, rawOp{op: opAll, out: b, call: c, ret: ret})
-				held = b
+				take(b)
 			default:
 				c := clock.Add(1)
 				b := q.Dequeue()
 				ret := clock.Add(1)
 				ops = append(ops, rawOp{op: opDeq, out: b, call: c, ret: ret})
-				held = b
+				take(b)
 			}
 			p.prog.Add(1)
 			if rr.pm() < yieldPm {
@@ -298,12 +317,29 @@ func runOneHistory(seed int64, maxOps int, parties *[2]party, yieldPm int) linHi
 	}()
 	wg.Wait()
 	h.ops[0], h.ops[1] = toOps(0, raw[0]), toOps(1, raw[1])
+	nPut := 0 // put-back elements at the front of the queue (only the consumer changes the front)
 	for _, x := range raw[1] {
-		if x.op == opReq {
+		switch {
+		case x.op == opReq:
 			h.requeues++
-		}
-		if (x.op == opDeq || x.op == opAll) && x.out == nil {
+			nPut++
+			if nPut >= 2 {
+				h.twoOut = true
+			}
+		case (x.op == opDeq || x.op == opAll) && x.out == nil:
 			h.nils++
+		case x.op == opDeq:
+			if nPut >= 2 {
+				h.twoThenDeq = true
+			}
+			if nPut > 0 {
+				nPut--
+			}
+		case x.op == opAll:
+			if nPut >= 2 {
+				h.twoThenAll = true
+			}
+			nPut = 0
 		}
 	}
 	return h
@@ -391,6 +427,15 @@ func runLin(d Desc) mon.Result {
 			}
 			if h.requeues > 0 && h.nils > 0 && ov > 0 {
 				obs["lin_histories_nontrivial"]++
+			}
+			if h.twoOut {
+				obs["lin_histories_with_two_outstanding_putbacks"]++
+			}
+			if h.twoThenAll {
+				obs["lin_histories_two_putbacks_then_dequeueall"]++
+			}
+			if h.twoThenDeq {
+				obs["lin_histories_two_putbacks_then_dequeue"]++
 			}
 			obs["lin_requeues"] += int64(h.requeues)
 			obs["lin_empty_dequeues"] += int64(h.nils)
